@@ -4,13 +4,18 @@ Python side:  sandbox/grist/schema.py (SCHEMA_VERSION, schema_create_actions), s
 generator), usertypes._type_defaults / get_type_default.
 Node side:    app/common/schema.ts (generated text), app/common/gristTypes.ts _defaultValues / getDefaultForType.
 
-regenerate   writes the DATA of both sides into coq/gen (PySchema_gen.v, TsSchema_gen.v) from the current files.
-Props/C38.v  proves, on that data, render(schema) = text of schema.ts and equal defaults for every type name, and
-             for all schemas that the rendered text determines version/tables/columns/types (render_injective).
-correspond   Model.JsSchema.render (vm_compute) vs the real gen_js_schema.main() on the real and on mutated schemas
-             and _ts_types tables; py_col_default vs the real usertypes.get_type_default on mutated tables; the
-             _defaultValues parser vs node's own evaluation of the literal; text monitors on the two TS functions.
-search       the same comparisons done directly in Python on the implementation files, with a precise diff.
+regenerate   writes from the current files, on every run:
+             DATA  coq/gen/PySchema_gen.v (schema, _ts_types, _type_defaults), TsSchema_gen.v (text of schema.ts, _defaultValues)
+             CODE  coq/gen/JsGen_gen.v = gen_js_schema.py get_ts_type/main + usertypes get_pure_type/get_type_default
+                   (harness/js2v.py), coq/gen/TsGen_gen.v = gristTypes.ts extractTypeFromColType/getDefaultForType
+                   (harness/ts2v.py); both translators are fail closed.
+Props/C38.v  bridging obligations (translated function = hand model, pointwise, Proofs/JsSchema_bridge.v), and the property
+             theorems stated about the translated functions (C38_code_*): main(schema) = Some(text of schema.ts), equal
+             defaults, injectivity of the generated text.
+correspond   translator validation: translated main (vm_compute) vs the running gen_js_schema.main() on mutated schemas;
+             translated get_type_default vs the running one on mutated tables; translated TS functions vs node running the
+             real (de-typed) functions on mutated _defaultValues literals; _defaultValues parser vs node; prototype names.
+search       the same comparisons done directly on the implementation files, with a precise diff.
 """
 import contextlib
 import difflib
@@ -37,31 +42,43 @@ RULE = ('search: exhaustive over the current tree - every metadata table (both b
         'spaces, newlines, %, non-BMP characters, odd versions, mutated _ts_types) fed to the real gen_js_schema.main(), '
         'and mutated _type_defaults tables fed to the real get_type_default; a schema case is non-trivial when it has at '
         'least one table with at least one column, a default case when the type is listed in the (mutated) table or '
-        'carries a suffix')
+        'carries a suffix; a TS-function case (mutated _defaultValues literal, column type incl. Object.prototype names, sqlFormatted flag) always')
 TRUSTED = ['harness data extraction: schema.py / _ts_types / _type_defaults imported and written as Coq data; '
            'app/common/schema.ts read as code points',
            'harness parser of the gristTypes.ts _defaultValues literal (strict, fail closed; cross-checked on every run '
            'against node evaluating the same literal when node is available)',
-           'Model/JsSchema.v render = hand-written model of gen_js_schema.main(), compared with the real function on '
-           'generated schemas every run',
-           'value-crossing map py_wire/ts_wire: Python int and float both reach Node as a binary64 number; None=null',
-           'TS functions getDefaultForType/extractTypeFromColType are not executed: their text is compared with the '
-           'text the model was written from']
+           'translators harness/js2v.py (Python subset incl. print/for/% formatting) and harness/ts2v.py (tokeniser + parser + '
+           'typed translation of two TS functions): validated on every run against the running Python functions and against '
+           'node running the de-typed TS functions',
+           'Lib/JsPrelude.v: py_percent (the % operator: %s, %-Ns, %Ns, %d, %%), print/for combinators, split(c,1)[0], '
+           'dict.get, JS indexOf/slice/!str, object-literal lookup through Object.prototype (name list compared with node)',
+           'value-crossing map py_wire/ts_wire: Python int and float both reach Node as a binary64 number; None=null; '
+           'undefined equals nothing']
+
 ASSUMPTIONS = ['render_injective: table ids contain no double quote, column ids no space and no colon, types no double '
                'quote (schema_ok; checked on the real schema by C38_real_schema_ok) - the generator does no escaping',
                'isFormula/formula of metadata columns are not printed by the generator, so schema.ts cannot and does '
                'not carry them; agreement is on version, table ids, column ids and types (schema_core)',
-               'defaults are compared as the value Node sees (binary64 bit pattern for numbers); -0.0 differs from 0']
-TECHNIQUE = ('Coq: data of both sides regenerated on every run, equality by vm_compute + render_injective for all schemas; '
-             'differential cases vs the real generator; direct file comparison as the oracle')
-LEVEL_TEXT = ('Kernel-checked: the Gallina re-implementation of gen_js_schema.main() applied to the schema extracted from '
-              'schema.py equals the text of app/common/schema.ts; for every type name the gristTypes.ts default equals the '
-              'usertypes default as seen by Node; and for all schemas equal generated text implies equal version, tables, '
-              'column ids and types. Data is re-extracted from /repo on every run; render is compared with the real '
-              'generator on mutated schemas.')
-LEVEL_NOTE = ('Trusted: Coq kernel, the data extractors and the strict _defaultValues parser (cross-checked with node), '
-              'render as model of the generator (differentially validated). The property is about the current tree: '
-              'the two equalities are finite and exhaustive; render_injective is for all schemas satisfying schema_ok.')
+               'defaults are compared as the value Node sees (binary64 bit pattern for numbers); -0.0 differs from 0',
+               'C38_code_defaults_equal excludes the 12 property names of Object.prototype (constructor, toString, ...): for '
+               'those getDefaultForType returns undefined (C38_defaults_refuted_on_prototype_names); none is a Grist type',
+               'JS strings are modelled as code points (indexOf/slice are used only to cut at the first colon, where code '
+               'units and code points give the same prefix)']
+
+TECHNIQUE = ('Coq: deciding code of both sides (generator script, get_type_default, getDefaultForType) translated from source '
+             'on every run and bridged pointwise to the hand model; data of both sides regenerated; equalities by vm_compute; '
+             'render_injective for all schemas; differential validation of the translators; direct file comparison as oracle')
+
+LEVEL_TEXT = ('Kernel-checked: main() of gen_js_schema.py as translated on this run, applied to the schema extracted from '
+              'schema.py, writes exactly the text of app/common/schema.ts; for every column type (except the 12 names of '
+              'Object.prototype members) getDefaultForType as translated from gristTypes.ts returns the value Node receives for '
+              'get_type_default as translated from usertypes.py; for all schemas equal generated text implies equal version, '
+              'tables, column ids and types. Code and data are re-extracted from /repo on every run; the translators are '
+              'validated against the running Python functions and against node.')
+
+LEVEL_NOTE = ('Trusted: Coq kernel, the data extractors, the strict _defaultValues parser (cross-checked with node), the '
+              'translators js2v/ts2v and Lib/JsPrelude primitives (differentially validated each run). The two equalities are '
+              'finite and exhaustive for the current tree; bridging lemmas and render_injective are for all inputs.')
 
 GEN = os.path.join(core.COQ, 'gen')
 
@@ -703,21 +720,33 @@ def gen_ts_case(rng, real_pairs):
   return table, t, rng.choice([None, None, False, True])
 
 
-def check_not_stale(ctx):
-  """The compiled theorems must have been checked against the data written by THIS run (guards against a make
-  that wrongly found everything up to date, e.g. when its dependency file was being rewritten concurrently)."""
+def stale_files():
+  """Names of generated files whose .vo (or Props/C38.vo) is older than what it must have been built from."""
   def mt(p):
     try:
       return os.path.getmtime(p)
     except OSError:
       return None
   prop_vo = mt(os.path.join(core.COQ, 'theories', 'Props', 'C38.vo'))
+  bad = []
   for name in ('PySchema_gen', 'TsSchema_gen', 'JsGen_gen', 'TsGen_gen'):
     v, vo = mt(os.path.join(GEN, name + '.v')), mt(os.path.join(GEN, name + '.vo'))
     if v is None or vo is None or vo < v or prop_vo is None or prop_vo < vo:
-      ctx.broken('proof:Props/C38 is not built from the data of this run',
-                 '%s.v %r, %s.vo %r, Props/C38.vo %r (modification times)' % (name, v, name, vo, prop_vo))
-      return
+      bad.append('%s.v %r, %s.vo %r, Props/C38.vo %r' % (name, v, name, vo, prop_vo))
+  return bad
+
+
+def check_not_stale(ctx):
+  """The compiled theorems must have been checked against the files written by THIS run.  Guards against a make that
+  wrongly found everything up to date (seen when another make was rewriting the shared dependency file): build once
+  more, then report."""
+  if not stale_files() or any(b['name'].startswith('proof:') for b in ctx.brokens):
+    return
+  rc, out = core.coq_make(['theories/Props/C38.vo'])
+  if rc != 0:
+    ctx.broken('proof:Props/C38 (second build)', out[-1500:])
+  elif stale_files():
+    ctx.broken('proof:Props/C38 is not built from the files of this run', '; '.join(stale_files()))
 
 
 def correspond(ctx):
@@ -731,7 +760,7 @@ def correspond(ctx):
   cases = [('real', tt, real[0], real[1])] if ctx.tier == 'thorough' else []
   if run_generator(real[0], real[1], tt) != run_generator_real_inprocess():
     ctx.broken('correspondence:harness wrapper', 'main() on the swapped-in copy of the real schema differs from main() itself')
-  for _ in range(ctx.n(50, 800)):
+  for _ in range(ctx.n(40, 800)):
     cases.append(gen_schema_case(ctx.rng, real, tt))
   coq = []
   kept = []
@@ -766,7 +795,7 @@ def correspond(ctx):
   import usertypes
   for k in list(usertypes._type_defaults) + ['Foo', 'Ref:Table1', 'DateTime:UTC', ':', '']:
     dkept.append((list(usertypes._type_defaults.items()), k))
-  for _ in range(ctx.n(200, 3000)):
+  for _ in range(ctx.n(100, 3000)):
     dkept.append(gen_default_case(ctx.rng, None))
   for table, t in dkept:
     got = py_wire(py_val(call_get_type_default(table, t)))
@@ -799,7 +828,7 @@ def correspond(ctx):
   real_pairs = parse_default_pairs(gt)
   tkept = [(real_pairs, k, q) for k in [n for n, _, _ in real_pairs] + PROTO_NAMES + ['Foo', 'Ref:Table1', ':', '']
            for q in (None, True)]
-  for _ in range(ctx.n(150, 2500)):
+  for _ in range(ctx.n(60, 2500)):
     tkept.append(gen_ts_case(ctx.rng, real_pairs))
   tables, index = [], {}
   for table, _, _ in tkept:
@@ -940,16 +969,36 @@ def ts_default_wire(table, col_type):
   return d[t] if t in d else d.get('Any', ('bad',))
 
 
-def default_diff(t, table=None):
+def node_real_defaults(types):
+  """{col type: value Node gets} from node running the REAL getDefaultForType (type annotations removed) on the REAL
+  _defaultValues literal; None when node is missing or cannot run them (the Python reading of the function is used then)."""
+  try:
+    text = gristtypes_text()
+    literal = '{\n' + '\n'.join(defaults_literal_lines(text)) + '\n}'
+    res = node_run_ts_functions(detyped_ts_functions(text), [literal], [(0, t, None) for t in types])
+  except Exception:
+    return None
+  if res is None:
+    return None
+  out = {}
+  for t, (w, _ext) in zip(types, res[0]):
+    out[t] = w if w[0] in ('null', 'bool', 'num', 'str') else ('bad',) if w[0] != 'undefined' else ('undefined',)
+  return out
+
+
+def default_diff(t, table=None, node_vals=None):
   """None if Node's and Python's default for column type t agree; else a description."""
   import usertypes
   if table is None:
     table = ts_wire_table()[0]
+  if node_vals is None:
+    node_vals = node_real_defaults([t]) or {}
   p = py_wire(py_val(usertypes.get_type_default(t)))
-  n = ts_default_wire(table, t)
+  n = node_vals.get(t) or ts_default_wire(table, t)
   if p == n and p[0] != 'bad':
     return None
-  return 'default of type %r: usertypes.get_type_default gives %s, gristTypes.ts gives %s' % (t, show_wire(p), show_wire(n))
+  return 'default of type %r: usertypes.get_type_default gives %s, gristTypes.ts gives %s' % (
+    t, show_wire(p), 'undefined' if n[0] == 'undefined' else show_wire(n))
 
 
 def search(ctx):
@@ -963,11 +1012,19 @@ def search(ctx):
   names += [k for k, _ in table if k not in names]
   plain = names + ['NoSuchType', '']
   suffixed = [n + ':Table1' for n in names] + ['NoSuchType:x', ':Text']
+  node_vals = node_real_defaults(plain + suffixed + PROTO_NAMES) or {}
+  ctx.bump('search:node-ran-real-getDefaultForType' if node_vals else 'search:python-reading-of-getDefaultForType')
   for t in plain + suffixed:
     ctx.count(('default-search', t), nontrivial=True, kind='search:default')
-    d = default_diff(t, table)
-    if d and (t in plain or not default_diff(pure_type(t), table)):   # a suffixed form is reported only if it alone differs
+    d = default_diff(t, table, node_vals)
+    if d and (t in plain or not default_diff(pure_type(t), table, node_vals)):   # a suffixed form is reported only if it alone differs
       ctx.violation('default-differs', d, {'check': 'default', 'type': t})
+  # outside the property (not Grist types), recorded as an observation: names found through Object.prototype
+  odd = [t for t in PROTO_NAMES if t not in names and default_diff(t, table, node_vals)]
+  if odd:
+    ctx.extra['observation_outside_property'] = (
+      'getDefaultForType(T) is undefined (Python: None) for T in %r: _defaultValues[T] finds a member of Object.prototype; '
+      'none of these is a Grist type (theorem C38_defaults_refuted_on_prototype_names; C38_code_defaults_equal excludes them)' % odd)
   if set(usertypes._type_defaults) != {k for k, _ in table}:
     ctx.notes.append('type names listed on one side only (defaults still agree through the fallbacks): %s' %
                      sorted(set(usertypes._type_defaults) ^ {k for k, _ in table}))
